@@ -1266,6 +1266,7 @@ def geometry_classes(text):
     core = d.get(('Core',), {})
     L = _fin(core.get('length'))
     pitch = _fin(core.get('assembly_pitch'))
+    core_len = _fin(core.get('length'))
     for nm, x in (('length', L), ('assembly_pitch', pitch)):
         if x is not None and x <= 0:
             cls.add('nonpositive-dimension')
@@ -1317,6 +1318,9 @@ def geometry_classes(text):
                         cls.add('inverted-axial-region')
                     else:
                         regs.append((lo, hi))
+                    # a region that reaches beyond the core outlet (not merely a bound typed with fewer digits)
+                    if core_len is not None and core_len > 0 and hi > core_len * (1.0 + 1e-6):
+                        cls.add('axial-region-beyond-core')
             for i in range(len(regs)):
                 for j in range(i + 1, len(regs)):
                     if min(regs[i][1], regs[j][1]) - max(regs[i][0], regs[j][0]) > 0:
@@ -1850,7 +1854,8 @@ def main(run):
         % (CAP_STEPS, CAP_SWEEP, MAX_MESH)]
     cs = cases(run.tier)
     run.check_determinism(run_case, cs[0])
-    budget = 40 if run.tier == 'quick' else 60
+    # CPU seconds per case (the slowest legitimate case - flow rates read as lb/hr: a few thousand steps - needs 20-40 s)
+    budget = 150 if run.tier == 'quick' else 200
     results = run.explore('faults', cs, run_case, budget_s=budget, chunksize=4)
     if run.tier == 'thorough':
         cs2 = double_cases(cs, results)
